@@ -4,15 +4,20 @@ C08 — in-circuit Merkle (MMCS) opening verification agrees with native.
 Models: `P3R.Model.MmcsNative` (p3-merkle-tree `verify_batch`, any arity) and
 `P3R.Model.MmcsCircuit` (the gadget + the runner semantics of the rows it emits).
 
+The circuit model is parametric in `Checks` (which build-time shape checks the gadget has:
+height gate = fixes/C08-3, row-width check = fixes/C08-2, cap-bits check = fixes/C08-4);
+`Checks.none` is the gadget before these repairs. `bin/checks_c08.py` tells the driver which gadget
+/repo is declared to contain (status of F-C08-3 / F-C08-2 / F9p in known_findings.json).
+
 FULL STATEMENT (the property as given): for every permutation, every dimension vector,
 cap height, index, opening,
-    `verifyBatch … = ok  ↔  verifyCircuit{2,4} … = ok`.
-It is FALSE of the current code in three ways, each proved on a concrete witness in
-`P3R/Witness/C08.lean` and replayed on the real code on every run:
-  * arity 4 with a cap and a binary bridge level: the gadget's path schedule stops early and an
-    honest opening is rejected (`arity4_cap_bridge_disagree`);
-  * the gadget has no row-width check (`shifted_row_boundary_disagree`);
-  * the gadget has no height-ladder (geometry) gate (`height_off_ladder_disagree`).
+    `verifyBatch … = ok  ↔  verifyCircuit{2,4} chk … = ok`.
+  * arity 4: FALSE for every `chk` — with a cap and a binary bridge level the gadget's path
+    schedule stops early and an honest opening is rejected
+    (`Witness.arity4_cap_bridge_disagree`, `Witness.mmcs_agree_arity4_false`; finding F-C08-1);
+  * arity 2, `chk.widths = false`: false (`Witness.shifted_row_boundary_disagree`, F-C08-2);
+  * arity 2, `chk.heights = false`: false (`Witness.height_off_ladder_disagree`, F-C08-3).
+The last two witnesses are records of the unrepaired gadget only.
 
 PROVED HERE (arity 2, every permutation, every dimension vector, every cap height, every index
 and opening; no bound on sizes):
@@ -22,10 +27,16 @@ and opening; no bound on sizes):
   * `height_grouping_eq`    under the geometry gate the native injection group at `logical_next`
                             is the gadget's "rounds up to the level's power of two" group
   * `circuit_path_eq`       inject-before-compress row chain = native compress-then-inject fold
-  * `mmcs_agree_arity2_partial`  native verdict ⇔ runner verdict, under exactly the shape conjuncts
-                            the gadget does not check itself (listed at the theorem).
-Missing for the full statement: the three defects above (no proof can exist), and arity 4
-(only the model + correspondence, no agreement theorem).
+  * `mmcs_agree_arity2_core`     native verdict ⇔ runner verdict for any `chk` when gate and widths hold
+  * `mmcs_agree_arity2_partial`  the same where gate / widths are hypotheses only if the gadget lacks
+                            the corresponding check (otherwise proved: both sides reject)
+  * `mmcs_agree_arity2_checked`  the repaired gadget (heights + widths): no hypothesis on heights or
+                            on the widths of the opened rows
+  * `cap_taller_than_index` a cap taller than the index is never accepted: build error with the
+                            cap-bits check, panic without
+Still assumed by `_partial` / `_checked`: positive widths, `index < max_height` (no range check in
+the gadget), opening shape = circuit shape, cap length = 2^effective cap height (C15).
+Missing for the full statement: arity 4 (defect F-C08-1; model + correspondence only).
 -/
 import P3R.Lemmas.MmcsSchedule
 import P3R.Lemmas.MmcsCap
@@ -189,7 +200,7 @@ arity-2 configuration of the repository), every dimension vector, configured cap
 index, opened rows and sibling digests: the native `verify_batch` accepts iff the runner
 accepts the circuit emitted by `verify_batch_circuit` on the same data with direction bits
 `(index >> k) & 1`, `k < log2_ceil(max_height)`. No bound on the number or sizes of matrices. -/
-theorem mmcs_agree_arity2_partial (perm : List K → List K) (c : Cfg)
+theorem mmcs_agree_arity2_core (chk : Checks) (perm : List K → List K) (c : Cfg)
     (hN : c.N = 2) (hW : c.W = 2 * c.dig) (hr : c.rate = c.dig) (hdig : 0 < c.dig)
     (hperm : ∀ x, x.length = c.W → (perm x).length = c.W)
     (capHeight : Nat) (cap : List (List K)) (dims : List Dim) (index : Nat)
@@ -209,7 +220,7 @@ theorem mmcs_agree_arity2_partial (perm : List K → List K) (c : Cfg)
     (hcap : cap.length = 2 ^ min capHeight (log2Ceil mx))
     (hcapd : ∀ e ∈ cap, e.length = c.dig) :
     verifyBatch perm c capHeight cap dims index opened proof = .ok () ↔
-      (verifyCircuit2 perm ⟨c.W, c.rate, c.dig, false⟩ cap dims (bitsOf index (log2Ceil mx)) opened proof).1 = .ok := by
+      (verifyCircuit2 chk perm ⟨c.W, c.rate, c.dig, false⟩ cap dims (bitsOf index (log2Ceil mx)) opened proof).1 = .ok := by
   obtain ⟨W, rate, dig, N⟩ := c
   simp only at hN hW hr hdig hperm hsib hcapd ⊢
   subst hr hN
@@ -292,7 +303,7 @@ theorem mmcs_agree_arity2_partial (perm : List K → List K) (c : Cfg)
     · intro h
       rw [if_pos ⟨hci_lt, h⟩]
   -- circuit side
-  have hcircuit : (verifyCircuit2 perm ⟨c.W, c.rate, c.dig, false⟩ cap dims (bitsOf index L) opened proof).1 = .ok ↔
+  have hcircuit : (verifyCircuit2 chk perm ⟨c.W, c.rate, c.dig, false⟩ cap dims (bitsOf index L) opened proof).1 = .ok ↔
       pathSpec perm c.dig g0 bs proof gs = cap.getD ci [] := by
     unfold verifyCircuit2
     have hcne : cap.isEmpty = false := by
@@ -300,7 +311,9 @@ theorem mmcs_agree_arity2_partial (perm : List K → List K) (c : Cfg)
       | nil => simp at hcap; exact absurd hcap (by positivity)
       | cons a l => rfl
     rw [if_neg (by simpa using hbatch)]
-    simp only [hcne, Bool.false_eq_true, if_false]
+    have hwok : widthsOk dims opened = true := hwidth
+    have hhok : heightsOk dims = true := by unfold heightsOk; rw [hgate]
+    simp only [hwok, hhok, Bool.not_true, Bool.and_false, hcne, Bool.false_eq_true, if_false]
     rw [capHeight_decode cap.length ech hcap]
     have hblen : (bitsOf index L : List K).length = L := by simp [bitsOf]
     simp only [hblen]
@@ -338,6 +351,157 @@ theorem mmcs_agree_arity2_partial (perm : List K → List K) (c : Cfg)
   rw [hnative, hcircuit]
   exact eq_comm
 
+
+/-- Tallest claimed height (0 for an empty batch). -/
+def maxH (dims : List Dim) : Nat := (dims.map (·.height)).foldl max 0
+
+theorem heightsOk_iff (dims : List Dim) :
+    heightsOk dims = true ↔ validateHeights (dims.map (·.height)) = .ok (maxH dims) := by
+  unfold heightsOk
+  constructor
+  · intro h
+    cases hv : validateHeights (dims.map (·.height)) with
+    | error e => rw [hv] at h; cases h
+    | ok mx => rw [(validateHeights_ok hv).2.2.2]; rfl
+  · intro h; rw [h]
+
+omit [Nontrivial K] in
+/-- The native verifier accepts only batches that pass the width check and the geometry gate. -/
+theorem verifyBatch_ok_shape (perm : List K → List K) (c : Cfg) (capHeight : Nat) (cap : List (List K))
+    (dims : List Dim) (index : Nat) (opened proof : List (List K))
+    (h : verifyBatch perm c capHeight cap dims index opened proof = .ok ()) :
+    widthsOk dims opened = true ∧ heightsOk dims = true := by
+  unfold verifyBatch at h
+  split at h
+  · cases h
+  · split at h
+    · cases h
+    · rename_i mx hv
+      split at h
+      · cases h
+      · split at h
+        · cases h
+        · split at h
+          · cases h
+          · rename_i hw
+            refine ⟨?_, by unfold heightsOk; rw [hv]⟩
+            unfold widthsOk
+            simpa using hw
+
+omit [Nontrivial K] in
+/-- A gadget with the width check / height gate refuses to build when the check fails. -/
+theorem verifyCircuit2_shape_err (chk : Checks) (perm : List K → List K) (pc : PermCfg) (cap : List (List K))
+    (dims : List Dim) (bits : List K) (streams sibs : List (List K))
+    (h : (chk.widths = true ∧ widthsOk dims streams = false) ∨ (chk.heights = true ∧ heightsOk dims = false)) :
+    (verifyCircuit2 chk perm pc cap dims bits streams sibs).1 ≠ .ok := by
+  unfold verifyCircuit2
+  simp only
+  split
+  · simp
+  · split
+    · simp
+    · rename_i hw
+      split
+      · simp
+      · rename_i hh
+        rcases h with ⟨h1, h2⟩ | ⟨h1, h2⟩
+        · simp [h1, h2] at hw
+        · simp [h1, h2] at hh
+
+/-- **C08, arity 2** (`_partial`: see the list of remaining hypotheses below).
+
+For every permutation `perm` on width-`W` states (`W = 2·dig`, `rate = dig`, as in every arity-2
+configuration of the repository), every dimension vector, configured cap height, index, opened
+rows and sibling digests: the native `verify_batch` accepts iff the runner accepts the circuit
+emitted by `verify_batch_circuit` (with the build-time checks `chk`) on the same data with
+direction bits `(index >> k) & 1`, `k < log2_ceil(max_height)`. No bound on sizes.
+
+The geometry gate and the row-width check are hypotheses only for a gadget that lacks them
+(`chk.heights = false` / `chk.widths = false`, i.e. before fixes/C08-3 / fixes/C08-2); for a gadget
+that has them they are proved facts (both sides reject). What remains assumed:
+  * positive widths (a width-0 matrix is injected natively as the hash of nothing and skipped by
+    the gadget);
+  * `index < max_height` — the gadget has no range check on the index; necessary for a statement
+    over every permutation (droppable only under collision resistance, which is not modelled);
+  * the opening has the shape the circuit is built for, and the commitment is a cap of the
+    configured effective height (malformed commitments: C15). -/
+theorem mmcs_agree_arity2_partial (chk : Checks) (perm : List K → List K) (c : Cfg)
+    (hN : c.N = 2) (hW : c.W = 2 * c.dig) (hr : c.rate = c.dig) (hdig : 0 < c.dig)
+    (hperm : ∀ x, x.length = c.W → (perm x).length = c.W)
+    (capHeight : Nat) (cap : List (List K)) (dims : List Dim) (index : Nat)
+    (opened proof : List (List K))
+    (hgate : chk.heights = true ∨ heightsOk dims = true)
+    (hbatch : dims.length = opened.length)
+    (hwidth : chk.widths = true ∨ widthsOk dims opened = true)
+    (hpos : ∀ d ∈ dims, 0 < d.width)
+    (hidx : index < maxH dims)
+    (hproof : proof.length = log2Ceil (maxH dims) - min capHeight (log2Ceil (maxH dims)))
+    (hsib : ∀ s ∈ proof, s.length = c.dig)
+    (hcap : cap.length = 2 ^ min capHeight (log2Ceil (maxH dims)))
+    (hcapd : ∀ e ∈ cap, e.length = c.dig) :
+    verifyBatch perm c capHeight cap dims index opened proof = .ok () ↔
+      (verifyCircuit2 chk perm ⟨c.W, c.rate, c.dig, false⟩ cap dims
+        (bitsOf index (log2Ceil (maxH dims))) opened proof).1 = .ok := by
+  by_cases hg : heightsOk dims = true
+  · by_cases hw : widthsOk dims opened = true
+    · exact mmcs_agree_arity2_core chk perm c hN hW hr hdig hperm capHeight cap dims index opened proof
+        (maxH dims) ((heightsOk_iff dims).mp hg) hbatch hw hpos hidx hproof hsib hcap hcapd
+    · have hw' : widthsOk dims opened = false := by simpa using hw
+      have hcw : chk.widths = true := by
+        rcases hwidth with h | h
+        · exact h
+        · exact absurd h hw
+      constructor
+      · intro h; exact absurd (verifyBatch_ok_shape perm c capHeight cap dims index opened proof h).1 hw
+      · intro h
+        exact absurd h (verifyCircuit2_shape_err chk perm _ cap dims _ opened proof (Or.inl ⟨hcw, hw'⟩))
+  · have hg' : heightsOk dims = false := by simpa using hg
+    have hch : chk.heights = true := by
+      rcases hgate with h | h
+      · exact h
+      · exact absurd h hg
+    constructor
+    · intro h; exact absurd (verifyBatch_ok_shape perm c capHeight cap dims index opened proof h).2 hg
+    · intro h
+      exact absurd h (verifyCircuit2_shape_err chk perm _ cap dims _ opened proof (Or.inr ⟨hch, hg'⟩))
+
+/-- **After fixes/C08-2 and fixes/C08-3**: for the gadget with the width check and the height
+gate, agreement needs no hypothesis on heights or on the widths of the opened rows. -/
+theorem mmcs_agree_arity2_checked (chk : Checks) (hh : chk.heights = true) (hwc : chk.widths = true)
+    (perm : List K → List K) (c : Cfg)
+    (hN : c.N = 2) (hW : c.W = 2 * c.dig) (hr : c.rate = c.dig) (hdig : 0 < c.dig)
+    (hperm : ∀ x, x.length = c.W → (perm x).length = c.W)
+    (capHeight : Nat) (cap : List (List K)) (dims : List Dim) (index : Nat)
+    (opened proof : List (List K))
+    (hbatch : dims.length = opened.length)
+    (hpos : ∀ d ∈ dims, 0 < d.width)
+    (hidx : index < maxH dims)
+    (hproof : proof.length = log2Ceil (maxH dims) - min capHeight (log2Ceil (maxH dims)))
+    (hsib : ∀ s ∈ proof, s.length = c.dig)
+    (hcap : cap.length = 2 ^ min capHeight (log2Ceil (maxH dims)))
+    (hcapd : ∀ e ∈ cap, e.length = c.dig) :
+    verifyBatch perm c capHeight cap dims index opened proof = .ok () ↔
+      (verifyCircuit2 chk perm ⟨c.W, c.rate, c.dig, false⟩ cap dims
+        (bitsOf index (log2Ceil (maxH dims))) opened proof).1 = .ok :=
+  mmcs_agree_arity2_partial chk perm c hN hW hr hdig hperm capHeight cap dims index opened proof
+    (Or.inl hh) hbatch (Or.inl hwc) hpos hidx hproof hsib hcap hcapd
+
+/-- With the cap-bits check (fixes/C08-4) a cap taller than the index is a build error; without
+it the gadget panics (`index_bits.len() - cap_height` underflows). Never accepted either way. -/
+theorem cap_taller_than_index (chk : Checks) (perm : List K → List K) (pc : PermCfg) (cap : List (List K))
+    (dims : List Dim) (bits : List K) (streams sibs : List (List K)) (e : Nat)
+    (hcap : cap.length = 2 ^ e) (he : bits.length < e)
+    (hb : dims.length = streams.length) (hw : widthsOk dims streams = true) (hh : heightsOk dims = true) :
+    (verifyCircuit2 chk perm pc cap dims bits streams sibs).1 = (if chk.capBits then .buildErr else .panic) := by
+  unfold verifyCircuit2
+  have hcne : cap.isEmpty = false := by
+    cases cap with
+    | nil => simp at hcap; exact absurd hcap (by positivity)
+    | cons a l => rfl
+  simp only [hb, ne_eq, not_true_eq_false, if_false, hw, hh, Bool.not_true, Bool.and_false,
+    Bool.false_eq_true, hcne]
+  rw [capHeight_decode cap.length e hcap]
+  simp only [he, if_true]
 
 /-! ### the sub-lemmas of DESIGN §4/C08 under their design names -/
 
@@ -411,6 +575,8 @@ theorem native_schedule_arity2 (capHeight mx : Nat) (dims : List Dim) (hmx : 0 <
 end P3R.C08
 
 #print axioms P3R.C08.mmcs_agree_arity2_partial
+#print axioms P3R.C08.mmcs_agree_arity2_checked
+#print axioms P3R.C08.cap_taller_than_index
 #print axioms P3R.C08.sponge_overwrite_eq
 #print axioms P3R.C08.cap_select_eq
 #print axioms P3R.C08.index_bits_eq
